@@ -88,6 +88,13 @@ func checkC08(r *harness.Run) harness.Coverage {
 			}
 		}
 	}
+	// two different slices in one expression (per-interpreter scratch state must not carry over)
+	forms := []string{"[:]", "[1:]", "[:1]", "[::2]", "[::-1]", "[1:3]", "[-2:]", "[:-1]", "[2::-1]", "[::1]", "[3:1:-1]", "[1::2]"}
+	for _, s1 := range forms {
+		for _, s2 := range forms {
+			exprs = append(exprs, exprFromText(s1+" | "+s2), exprFromText("x"+s1+" | "+s2), exprFromText("["+s1+", "+s2+"]"), exprFromText("x"+s1+s2))
+		}
+	}
 	var docs []interface{}
 	for n := 0; n <= L; n++ {
 		arr := make([]interface{}, n)
@@ -96,6 +103,7 @@ func checkC08(r *harness.Run) harness.Coverage {
 		}
 		docs = append(docs, arr, map[string]interface{}{"x": arr})
 	}
+	docs = append(docs, univ.Js(`[[0,1,2],[3,4],[5]]`, `{"x":[[0,1,2],[3,4],[5]]}`)...)
 	docs = append(docs, univ.Js(`null`, `true`, `3`, `"abcdef"`, `{}`, `{"x":"abc"}`, `{"x":{"a":[1,2]}}`, `{"x":null}`, `{"0":1}`)...)
 	st := conform(r, exprs, docs, conformOpts{})
 
